@@ -36,8 +36,8 @@ package util
 //@   let M = corev1.ResourceMemory
 //@   let hpC = cpuPolMax(strategy) ? val(podHPMaxUsedReq, C) : val(podHPUsed, C)
 //@   let hpM = memPolReq(strategy) ? val(podHPReq, M) : (memPolMax(strategy) ? val(podHPMaxUsedReq, M) : val(podHPUsed, M))
-//@   let pctC = real(deref(strategy.BatchCPUThresholdPercent)) / 100
-//@   let pctM = real(deref(strategy.BatchMemoryThresholdPercent)) / 100
+//@   let pctC = old(real(deref(strategy.BatchCPUThresholdPercent)) / 100)
+//@   let pctM = old(real(deref(strategy.BatchMemoryThresholdPercent)) / 100)
 //@   let capC = old(val(nodeCapacity, C))
 //@   let capM = old(val(nodeCapacity, M))
 //@   let capvC = real(trunc(real(capC.MilliValue()) * pctC)) / 1000
@@ -45,11 +45,13 @@ package util
 //@   let rawC = max0(val(nodeCapacity, C) - val(nodeSafetyMargin, C) - sysOrRes(systemUsed, nodeReserved, C) - hpC)
 //@   let rawM = max0(val(nodeCapacity, M) - val(nodeSafetyMargin, M) - sysOrRes(systemUsed, nodeReserved, M) - hpM)
 // pin the scaled capacity at the call sites (checked, then assumed): it is the spec term over the entry-state capacity
-//@   assert before call MultiplyMilliQuant: $arg0 == old(val(nodeCapacity, corev1.ResourceCPU)) && $arg1 == real(deref(strategy.BatchCPUThresholdPercent)) / 100
-//@   assert before call MultiplyQuant: $arg0 == old(val(nodeCapacity, corev1.ResourceMemory)) && $arg1 == real(deref(strategy.BatchMemoryThresholdPercent)) / 100
-//@   assert after call MultiplyQuant: $arg0 >= 0 && $arg0 == real($arg0.Value()) ==> result <= old(val(nodeCapacity, corev1.ResourceMemory)) * (real(deref(strategy.BatchMemoryThresholdPercent)) / 100)
-//@   assert after call MultiplyMilliQuant: result == real(trunc(real(old(val(nodeCapacity, corev1.ResourceCPU)).MilliValue()) * (real(deref(strategy.BatchCPUThresholdPercent)) / 100))) / 1000
-//@   assert after call MultiplyQuant: result == real(trunc(real(old(val(nodeCapacity, corev1.ResourceMemory)).Value()) * (real(deref(strategy.BatchMemoryThresholdPercent)) / 100)))
+//@   assert before call MultiplyMilliQuant: $arg0 == capC && $arg1 == pctC
+//@   assert before call MultiplyQuant: $arg0 == capM && $arg1 == pctM
+//@   assert after call MultiplyQuant: $arg0 >= 0 && $arg0 == real($arg0.Value()) ==> result <= capM * pctM
+//@   assert after call MultiplyMilliQuant: 1000 * result == truncMul(real($arg0.MilliValue()), $arg1) && truncMul(real($arg0.MilliValue()), $arg1) == truncMul(real(capC.MilliValue()), pctC)
+//@   assert after call MultiplyMilliQuant: result == capvC
+//@   assert after call MultiplyQuant: result == truncMul(real($arg0.Value()), $arg1) && truncMul(real($arg0.Value()), $arg1) == truncMul(real(capM.Value()), pctM)
+//@   assert after call MultiplyQuant: result == capvM
 //@   ensures #fresh: fresh(result0) && has(result0, C) && has(result0, M)
 // functional form (cpu), one clause per policy/cap combination; together: result == batchAmount(cap, margin, max(sys,res), hp(policy), capped, capv)
 //@   ensures #cpu_formula_usage: !cpuPolMax(strategy) && !cpuCapped(strategy) ==> val(result0, C) == max0(val(nodeCapacity, C) - val(nodeSafetyMargin, C) - sysOrRes(systemUsed, nodeReserved, C) - val(podHPUsed, C))
@@ -97,6 +99,10 @@ package util
 //@   ensures #other: strategyType != MidCPUThreshold && strategyType != MidMemoryThreshold && strategyType != MidUnallocatedPercent && strategyType != MidStaticCPUReservedPercent && strategyType != MidStaticMemoryReservedPercent ==> result == 0
 //@   modifies nothing
 
+// x * f truncated towards zero (what int64(float64(x) * f) computes); kept opaque so that equal arguments give equal values
+// by congruence instead of nonlinear arithmetic.
+//@ spec func truncMul(x real, f real) real = real(trunc(x * f))
+//@ opaque truncMul
 //@ spec func ownSC(s *configuration.ColocationStrategy) bool = s != nil && s.MidStaticCPUReservedPercent != nil
 //@ spec func ownSM(s *configuration.ColocationStrategy) bool = s != nil && s.MidStaticMemoryReservedPercent != nil
 //@ spec func ownTC(s *configuration.ColocationStrategy) bool = s != nil && s.MidCPUThresholdPercent != nil
@@ -108,12 +114,22 @@ package util
 //@ func CalculateMidResourceByStaticMode [C09]
 //@   let C = corev1.ResourceCPU
 //@   let M = corev1.ResourceMemory
-//@   let capMilli = real(val(nodeCapacity, C).MilliValue())
-//@   let capBytes = real(val(nodeCapacity, M).Value())
-//@   let sC = real(deref(strategy.MidStaticCPUReservedPercent)) / 100
-//@   let sM = real(deref(strategy.MidStaticMemoryReservedPercent)) / 100
-//@   let tC = real(deref(strategy.MidCPUThresholdPercent)) / 100
-//@   let tM = real(deref(strategy.MidMemoryThresholdPercent)) / 100
+//@   let capMilli = old(real(val(nodeCapacity, C).MilliValue()))
+//@   let capBytes = old(real(val(nodeCapacity, M).Value()))
+//@   let sC = old(real(deref(strategy.MidStaticCPUReservedPercent)) / 100)
+//@   let sM = old(real(deref(strategy.MidStaticMemoryReservedPercent)) / 100)
+//@   let tC = old(real(deref(strategy.MidCPUThresholdPercent)) / 100)
+//@   let tM = old(real(deref(strategy.MidMemoryThresholdPercent)) / 100)
+// Pins at the four ratio lookups (checked in the small context of the call, then assumed): the ratio, the product the code forms with
+// it written over the spec terms (truncated value by congruence of the opaque truncMul), and its sign.
+//@   assert after call getPercentFromStrategy#1: result == (ownSC(strategy) ? sC : 0) && truncMul(capMilli, result) == truncMul(capMilli, ownSC(strategy) ? sC : 0) && capMilli * result == (ownSC(strategy) ? capMilli * sC : 0) && (val(nodeCapacity, C) >= 0 && result >= 0 ==> capMilli * result >= 0)
+//@   assert after call getPercentFromStrategy#2: result == (ownSM(strategy) ? sM : 0) && truncMul(capBytes, result) == truncMul(capBytes, ownSM(strategy) ? sM : 0) && capBytes * result == (ownSM(strategy) ? capBytes * sM : 0) && (val(nodeCapacity, M) >= 0 && result >= 0 ==> capBytes * result >= 0)
+//@   assert after call getPercentFromStrategy#3: result == (ownTC(strategy) ? tC : 1) && truncMul(capMilli, result) == truncMul(capMilli, ownTC(strategy) ? tC : 1) && capMilli * result == (ownTC(strategy) ? capMilli * tC : capMilli) && (val(nodeCapacity, C) >= 0 && result >= 0 ==> capMilli * result >= 0)
+//@   assert after call getPercentFromStrategy#4: result == (ownTM(strategy) ? tM : 1) && truncMul(capBytes, result) == truncMul(capBytes, ownTM(strategy) ? tM : 1) && capBytes * result == (ownTM(strategy) ? capBytes * tM : capBytes) && (val(nodeCapacity, M) >= 0 && result >= 0 ==> capBytes * result >= 0)
+//@   assert after call MultiplyMilliQuant: result == truncMul(capMilli, ownSC(strategy) ? sC : 0) / 1000
+//@   assert after call MultiplyQuant: result == truncMul(capBytes, ownSM(strategy) ? sM : 0)
+//@   assert before call NewQuantity#1: real($arg0) == truncMul(capMilli, ownSC(strategy) ? sC : 0)
+//@   assert before call NewQuantity#2: real($arg0) == truncMul(capBytes, ownSM(strategy) ? sM : 0)
 //@   ensures #cpu_formula_st: ownSC(strategy) && ownTC(strategy) ==> deref(result0) == real(min(trunc(capMilli * sC), trunc(capMilli * tC)))
 //@   ensures #cpu_formula_s: ownSC(strategy) && !ownTC(strategy) ==> deref(result0) == min(real(trunc(capMilli * sC)), capMilli)
 //@   ensures #cpu_formula_t: !ownSC(strategy) && ownTC(strategy) ==> deref(result0) == real(min(0, trunc(capMilli * tC)))
@@ -140,20 +156,29 @@ package util
 //@ func CalculateMidResourceByPolicy [C09]
 //@   let C = corev1.ResourceCPU
 //@   let M = corev1.ResourceMemory
-//@   let capMilli = real(val(nodeCapacity, C).MilliValue())
-//@   let capBytes = real(val(nodeCapacity, M).Value())
-//@   let unusedMilli = val(nodeUnused, C).MilliValue()
-//@   let unusedBytes = val(nodeUnused, M).Value()
-//@   let unallocMilli = real(val(unallocated, C).MilliValue())
-//@   let unallocBytes = real(val(unallocated, M).Value())
-//@   let uP = real(deref(strategy.MidUnallocatedPercent)) / 100
-//@   let tC = real(deref(strategy.MidCPUThresholdPercent)) / 100
-//@   let tM = real(deref(strategy.MidMemoryThresholdPercent)) / 100
+//@   let capMilli = old(real(val(nodeCapacity, C).MilliValue()))
+//@   let capBytes = old(real(val(nodeCapacity, M).Value()))
+//@   let unusedMilli = old(val(nodeUnused, C).MilliValue())
+//@   let unusedBytes = old(val(nodeUnused, M).Value())
+//@   let unallocMilli = old(real(val(unallocated, C).MilliValue()))
+//@   let unallocBytes = old(real(val(unallocated, M).Value()))
+//@   let uP = old(real(deref(strategy.MidUnallocatedPercent)) / 100)
+//@   let tC = old(real(deref(strategy.MidCPUThresholdPercent)) / 100)
+//@   let tM = old(real(deref(strategy.MidMemoryThresholdPercent)) / 100)
 //@   let baseC = max0(min(allocatableMilliCPU, unusedMilli))
 //@   let baseM = max0(min(allocatableMemory, unusedBytes))
-// pin the defaulted ratios at the call sites (checked, then assumed)
-//@   assert after call getPercentFromStrategy: ($arg2 == MidUnallocatedPercent && !ownUP(strategy) ==> result == 0) && ($arg2 == MidCPUThreshold && !ownTC(strategy) ==> result == 1) && ($arg2 == MidMemoryThreshold && !ownTM(strategy) ==> result == 1)
-//@   assert before call NewQuantity#5: ownUP(strategy) ==> $arg0 == trunc(real(val(unallocated, corev1.ResourceMemory).Value()) * (real(deref(strategy.MidUnallocatedPercent)) / 100))
+// Pins at the call sites (each is checked in the small context of the call, then assumed): the ratio read from the strategy, the
+// products the code forms with it written over the spec terms, and their sign / truncation bounds. The clauses below then need no
+// nonlinear reasoning. Call order: getPercentFromStrategy #1 unallocated, #2 cpu threshold, #3 memory threshold;
+// NewQuantity #4 / #5 receive the truncated unallocated cpu / memory share.
+//@   assert after call getPercentFromStrategy#1: result == (ownUP(strategy) ? uP : 0)
+//@   assert before call NewQuantity#4: $arg0 == (ownUP(strategy) ? trunc(unallocMilli * uP) : 0)
+//@   assert before call NewQuantity#4: ownUP(strategy) && uP >= 0 && val(unallocated, C) >= 0 ==> $arg0 >= 0 && real($arg0) <= unallocMilli * uP
+//@   assert before call NewQuantity#5: real(unallocatedMemory.Value()) == unallocBytes
+//@   assert before call NewQuantity#5: $arg0 == (ownUP(strategy) ? trunc(unallocBytes * uP) : 0)
+//@   assert before call NewQuantity#5: ownUP(strategy) && uP >= 0 && val(unallocated, M) >= 0 ==> $arg0 >= 0 && real($arg0) <= unallocBytes * uP
+//@   assert after call getPercentFromStrategy#2: result == (ownTC(strategy) ? tC : 1) && capMilli * result == (ownTC(strategy) ? capMilli * tC : capMilli) && truncMul(capMilli, result) == truncMul(capMilli, ownTC(strategy) ? tC : 1) && (val(nodeCapacity, C) >= 0 && result >= 0 ==> capMilli * result >= 0)
+//@   assert after call getPercentFromStrategy#3: result == (ownTM(strategy) ? tM : 1) && capBytes * result == (ownTM(strategy) ? capBytes * tM : capBytes) && truncMul(capBytes, result) == truncMul(capBytes, ownTM(strategy) ? tM : 1) && (val(nodeCapacity, M) >= 0 && result >= 0 ==> capBytes * result >= 0)
 // functional form, one clause per combination of configured / defaulted percentages
 //@   ensures #cpu_formula_ut: ownUP(strategy) && ownTC(strategy) ==> deref(result0) == real(min(baseC + trunc(unallocMilli * uP), trunc(capMilli * tC)))
 //@   ensures #cpu_formula_u: ownUP(strategy) && !ownTC(strategy) ==> deref(result0) == min(real(baseC + trunc(unallocMilli * uP)), capMilli)
